@@ -4,6 +4,8 @@ Ops (floats = decimal value of the IEEE-754 bit pattern, N = None), see lean/SmV
     c2d / c2dci / j2d     the closed forms of distance_utils on attainable ratios a/b
     res ani|jac|ci        the result classes on arbitrary (also illegal) field values -- compared EXACTLY
     mh cont|max|avg|jac   the MinHash wrappers on real sketches of given sizes / overlap
+    cls / clsnum          FracMinHashComparison / NumMinHashComparison / PrefetchResult / GatherResult / SearchResult (sketchcomparison.py,
+                          search.py) on the same kind of sketch pairs as `mh`; every ANI field, flag and CSV cell
     sia                   MinHash.size_is_accurate: which scipy.stats.binom calls, with which arguments, probability, answer
     pyvar                 distance_utils.var_n_mutated
     nat ...               the NATIVE twin src/core/src/ani_utils.rs, executed by rust-harness (`smharness ani`) next to the
@@ -144,6 +146,14 @@ def fill(lines):
                 raise common.ToolFailure("ani helper: " + l)
             w[7], w[8] = r["acc"][0], r["acc"][1]
             w[9], w[10] = r["v"].split(",")
+        elif w[0] == "cls":
+            raw = dict(t.split("=", 1) for t in _ask(l).split() if "=" in t)
+            if "ref" in raw:            # downsampling to the requested comparison scaled is refused: nothing to paste
+                toks = ["0", "0"] + ["N", "N", "N", "0"] * 3 + ["N", "0", "0"]
+            else:
+                j = raw["ref.j"].split(",") if not raw["ref.j"].startswith("E") else [raw["ref.j"], "0", "0"]
+                toks = list(raw["ref.acc"]) + raw["ref.c12"].split(",") + raw["ref.c21"].split(",") + raw["ref.mc"].split(",") + j
+            w[12:] = toks
         elif w[0] == "sia":
             if "vals" in r:
                 w[5], w[6], w[7] = r["vals"].split(",")
@@ -151,6 +161,10 @@ def fill(lines):
                 w[5], w[6], w[7] = "0", "0", "N"     # the call raised (TypeError / ValueError): nothing to paste
         elif w[0] == "nat" and w[1] in ("ci", "inc-ci"):
             w[7], w[8] = r.get("alo", "N"), r.get("ahi", "N")
+        elif w[0] == "nat" and w[1] == "gstats":
+            if "py" not in r:
+                raise common.ToolFailure("ani helper (native harness missing?): " + l)
+            w[10:] = [r["qlo"], r["qhi"], r["mlo"], r["mhi"]] + r["py"].split(",")
         elif w[0] == "nat" and w[1] == "probit":
             if "z" not in r:
                 raise common.ToolFailure("ani helper (native harness missing?): " + l)
@@ -327,11 +341,50 @@ def gen_native(rng):
         lines.append(f"nat pnc {bits(1.0 - r1)} {k} {scaled} {L}")
         p = rng.choice([0.5, 0.975, 0.75, 0.995, rng.uniform(0.5, 0.9999), 1.0 - (1.0 - conf) / 2])
         lines.append(f"nat probit {bits(p)} ?")
+    # the native GatherResult (src/core/src/index/mod.rs calculate_gather_stats) next to search.GatherResult
+    for _ in range(rng.randint(1, 2)):
+        sc = rng.choice([1, 10, 100, 1000])
+        lq = rng.choice([rng.randint(2, 60), rng.randint(80, 400), rng.randint(400, 3000)])
+        lm = rng.choice([lq, rng.randint(2, 60), rng.randint(80, 400), rng.randint(400, 3000)])
+        cm = rng.choice([1, min(lq, lm), rng.randint(1, min(lq, lm))])
+        rem = rng.choice([0, 0, rng.randint(0, cm - 1)])        # hashes already claimed by earlier gather rounds
+        lines.append(f"nat gstats {lq} {lm} {cm} {sc} {rng.choice([21, 31, 51])} {rem} {rng.randint(0, 1)} "
+                     f"{rng.choice([bits(0.95), bits(0.9), 'N'])} " + " ".join(["?"] * 12))
+    return lines
+
+
+def gen_cls(rng):
+    """the SAME kind of sketch pairs as the `mh` flavour, through FracMinHashComparison / PrefetchResult / GatherResult /
+    SearchResult: equal or different scaled, comparison scaled None / max / coarser / (rarely) finer than the sketches,
+    with and without confidence intervals, hashes that exist only at the finer resolution"""
+    lines = []
+    for _ in range(rng.randint(2, 4)):
+        sa = rng.choice([1, 1, 2, 10, 100, 1000])
+        sb = sa if rng.random() < 0.6 else rng.choice([1, 2, 10, 100, 1000])
+        top = max(sa, sb)
+        r = rng.random()
+        cs = "-" if r < 0.35 else (top if r < 0.65 else (top * rng.choice([2, 5, 10]) if r < 0.95 else max(1, top // 2)))
+        cse = top if cs == "-" else cs
+        k = rng.choice([7, 21, 31, 51, rng.randint(1, 120)])
+        la = rng.choice([1, 2, 5, rng.randint(1, 50), rng.randint(50, 400), rng.randint(400, 3000)])
+        lb = rng.choice([la, 1, rng.randint(1, 50), rng.randint(50, 400), rng.randint(400, 3000)])
+        if cse > 1 and rng.random() < 0.4:
+            thr = min([(abs(x - cse), t) for x, t in ((2, 47), (10, 88), (100, 92), (1000, 95))])[1]
+            la, lb = rng.randint(thr - 8, thr + 8), rng.randint(thr - 8, thr + 8)
+        r = rng.random()
+        cm = 0 if r < 0.25 else (min(la, lb) if r < 0.5 else rng.randint(0, min(la, lb)))
+        xa, xb = rng.choice([0, 0, 3, 40]), rng.choice([0, 0, 5])
+        ci = int(rng.random() < 0.4)
+        conf = rng.choice([0.95, 0.95, 0.9, 0.5, 0.99])
+        lines.append(f"cls {la} {lb} {cm} {xa} {xb} {sa} {sb} {k} {cs} {ci} {bits(conf)} " + " ".join(["?"] * 17))
+    if rng.random() < 0.3:
+        la, lb = rng.randint(1, 60), rng.randint(1, 60)
+        lines.append(f"clsnum {la} {lb} {rng.randint(0, min(la, lb))} {rng.choice([10, 50, 500])} {rng.choice([21, 31])}")
     return lines
 
 
 def gen_case(rng, flavour):
-    g = {"closed": gen_closed, "res": gen_res, "ci": gen_ci, "mh": gen_mh, "sia": gen_sia, "native": gen_native}[flavour]
+    g = {"cls": gen_cls, "closed": gen_closed, "res": gen_res, "ci": gen_ci, "mh": gen_mh, "sia": gen_sia, "native": gen_native}[flavour]
     return fill(g(rng))
 
 
@@ -487,6 +540,11 @@ def oracle(case, impl):
                     bad.append((idx, f"C17:at-one:mh-{kind}", f"identical sketches, ani={ani!r}"))
                 if cm == 0 and ani != 0.0:
                     bad.append((idx, f"C17:at-zero:mh-{kind}", f"disjoint sketches, ani={ani!r}"))
+        elif op == "cls":
+            bad.extend(oracle_cls(idx, w, l, o, r))
+        elif op == "clsnum":
+            if r.get("c.j") != "ETypeError" or r.get("s.j", "x").split(",")[0] != "N" or r.get("c.sinacc") != "0":
+                bad.append((idx, "C17:num-sketches-get-an-ani", f"{l} -> {o[:100]}"))
         elif op == "sia":
             length, scaled, rel, conf = int(w[1]), int(w[2]), fl(w[3]), fl(w[4])
             if scaled == 0:
@@ -560,6 +618,35 @@ def oracle(case, impl):
                         bad.append((idx, "C17:native-vs-python:ci", f"native ({alo!r}, {ahi!r}) vs Python ({palo!r}, {pahi!r}) for {l[:70]}"))
                 if not (0.0 <= alo <= ahi + 1e-9 and ahi <= 1.0):
                     bad.append((idx, "C17:native-ci:not-ordered", f"({alo!r}, {ahi!r}) for {l[:70]}"))
+            elif which == "gstats":
+                if not o.startswith("ok "):
+                    bad.append((idx, "C17:native-gather:refused", f"{l[:70]} -> {o[:60]}"))
+                    continue
+                lq, lm, cm, sc, k, rem = (int(x) for x in w[2:8])
+                py = r["py"].split(",")
+                q, m = fl(r["q"]), fl(r["m"])
+                ctx = f"[orig query {lq} hashes, match {lm}, {cm} shared, {rem} already claimed, scaled {sc}, k {k}]"
+                if py[0] == "N":
+                    bad.append((idx, "C17:native-gather:reports-where-python-withholds",
+                                f"native GatherResult: query_containment_ani={q!r}, match_containment_ani={m!r}; search.GatherResult withholds all four ANI fields {ctx}"))
+                else:
+                    for nm, a, b_ in (("query_containment_ani", r["q"], py[0]), ("match_containment_ani", r["m"], py[1]),
+                                      ("average_containment_ani", r["avg"], py[2]), ("max_containment_ani", r["max"], py[3])):
+                        if a != b_:
+                            bad.append((idx, "C17:native-vs-python:gather-point", f"{nm}: native {fl(a)!r} vs Python {f_or_none(b_)!r} {ctx}"))
+                if r["qlo"] != "N":
+                    qlo, qhi, mlo, mhi = (fl(r[t]) for t in ("qlo", "qhi", "mlo", "mhi"))
+                    if (1.0 in (qlo, qhi) and q < 1.0) or (1.0 in (mlo, mhi) and m < 1.0):
+                        bad.append((idx, "C17:native-ci:unwrap_or_default", f"native GatherResult interval bound 1.0: ({qlo!r},{qhi!r}) ({mlo!r},{mhi!r}) {ctx}"))
+                    elif not (qlo - 1e-9 <= q <= qhi + 1e-9 and mlo - 1e-9 <= m <= mhi + 1e-9):
+                        bad.append((idx, "C17:native-gather:ci-does-not-bracket-point",
+                                    f"native GatherResult: query ANI {q!r} with interval ({qlo!r}, {qhi!r}); match ANI {m!r} with ({mlo!r}, {mhi!r}) {ctx}"))
+                    elif rem == 0:
+                        if "N" not in py[6:8] and (abs(fl(py[6]) - mlo) > CI_TOL or abs(fl(py[7]) - mhi) > CI_TOL):
+                            bad.append((idx, "C17:native-vs-python:gather-ci", f"match interval native ({mlo!r},{mhi!r}) vs Python ({fl(py[6])!r},{fl(py[7])!r}) {ctx}"))
+                        if "N" not in py[4:6] and (abs(fl(py[4]) - qlo) > CI_TOL or abs(fl(py[5]) - qhi) > CI_TOL):
+                            bad.append((idx, "C17:native-gather:query-ci-uses-match-size",
+                                        f"query interval native ({qlo!r},{qhi!r}) vs Python ({fl(py[4])!r},{fl(py[5])!r}) {ctx}"))
             elif which == "probit":
                 p, z = fl(w[2]), f_or_none(r.get("z"))
                 if z is not None and ((p == 0.5 and z != 0.0) or (p > 0.5 and not z > 0.0)):
@@ -571,6 +658,84 @@ def oracle(case, impl):
             if x1 < x2 and a1 > a2:
                 bad.append((max(i1, i2), f"C17:not-monotone:{kind}",
                             f"k={k}: x={x1!r} -> ani {a1!r} but x={x2!r} -> ani {a2!r}"))
+    return bad
+
+
+def oracle_cls(idx, w, l, o, r):
+    """relation oracle: every ANI the comparison / result classes report EQUALS the MinHash-level answer on the sketches
+    downsampled to the comparison scaled (C17:comparison-class-differs:<field>), plus the statement's own laws"""
+    bad = []
+    la, lb, cm, xa, xb, sa, sb, k = (int(x) for x in w[1:9])
+    cs = None if w[9] == "-" else int(w[9])
+    ci = w[10] == "1"
+
+    def diff(field, got, want):
+        if got != want:
+            bad.append((idx, f"C17:comparison-class-differs:{field}",
+                        f"{field} = {show(got)} but the MinHash-level answer on the downsampled sketches is {show(want)} "
+                        f"[{' '.join(w[:12])}]"))
+
+    def show(t):
+        return ",".join(("None" if x == "N" else "0.0" if x == "0" else (repr(fl(x)) if x.isdigit() and len(x) > 12 else x)) for x in str(t).split(","))
+
+    if not o.startswith("ok "):
+        return [(idx, "C17:cls:adapter", o[:100])]
+    keys = ["c.c12", "c.c21", "c.avgp", "c.all", "c.mx", "c.j", "c.sinacc", "p", "g", "s.c", "s.m", "s.j"]
+    if "ref" in r:                  # the MinHash-level downsampling raises: so must every class
+        for kk in keys:
+            if not r.get(kk, "").startswith("E"):
+                diff(kk, r.get(kk), r["ref"])
+        return bad
+    acc = r["ref.acc"]
+    c12, c21, mc = r["ref.c12"].split(","), r["ref.c21"].split(","), r["ref.mc"].split(",")
+    jerr = r["ref.j"].startswith("E")
+    j = r["ref.j"].split(",")
+    mask = lambda t: [t[0], t[1] if ci else "N", t[2] if ci else "N", t[3]]      # noqa: E731
+    pfn = str(int(c12[3] == "1" or c21[3] == "1"))
+    diff("ani_from_mh1_containment_in_mh2", r["c.c12"], ",".join(mask(c12)))
+    diff("ani_from_mh2_containment_in_mh1", r["c.c21"], ",".join(mask(c21)))
+    diff("avg_containment_ani", r["c.avgp"], f"{r['ref.avg']},{pfn}")
+    # estimate_all_containment_ani: max of the two directional values == the MinHash-level max_containment_ani
+    both = c12[0] != "N" and c21[0] != "N"
+    mx2 = "N" if not both else (c12[0] if fl(c12[0]) >= fl(c21[0]) else c21[0])
+    diff("estimate_all_containment_ani", r["c.all"], f"{c12[0]},{c21[0]},{mx2},{pfn}")
+    diff("max_containment_ani(all)-vs-MinHash.max_containment_ani", r["c.all"].split(",")[2], mc[0])
+    diff("max_containment_ani", r["c.mx"], ",".join(mask(mc)))
+    diff("jaccard_ani", r["c.j"], r["ref.j"] if jerr else f"{j[0]},{j[1]},{j[2]}")
+    diff("size_may_be_inaccurate", r["c.sinacc"], str(int(acc != "11")))
+    cols = [c12[0], c21[0], r["ref.avg"], mx2] + (mask(c12)[1:3] + mask(c21)[1:3])
+    pres = "".join("0" if x == "N" else "1" for x in cols)
+    want_p = ",".join(cols[:4]) + f",{pfn}," + ",".join(cols[4:]) + f",{pres},{pres}"
+    diff("PrefetchResult", r["p"], want_p)
+    if r["g"].startswith("E"):
+        if not (cs is None and r["g"] == "EValueError") and not (cm == 0 and r["g"] == "EAssertionError"):
+            diff("GatherResult", r["g"], want_p)
+    else:
+        diff("GatherResult", r["g"], want_p)
+    for key, ref4, nm in (("s.c", mask(c12), "SearchResult(containment)"), ("s.m", mask(mc), "SearchResult(max_containment)")):
+        diff(nm, r[key], ",".join(ref4) + "," + "".join("0" if x == "N" else "1" for x in ref4[:3]))
+    diff("SearchResult(jaccard)", r["s.j"], r["ref.j"] if jerr else f"{j[0]},N,N,{j[1]}," + ("0" if j[0] == "N" else "1") + "00")
+    # the statement's own laws, on the class-level values themselves
+    vals = {"avg_containment_ani": r["c.avgp"].split(",")[0], "max_containment_ani": r["c.all"].split(",")[2],
+            "ani_from_mh1_containment_in_mh2": r["c.c12"].split(",")[0], "ani_from_mh2_containment_in_mh1": r["c.c21"].split(",")[0],
+            "estimate_max_containment_ani": r["c.mx"].split(",")[0]}
+    if not r["p"].startswith("E"):
+        pv = r["p"].split(",")
+        vals.update({"PrefetchResult.query_containment_ani": pv[0], "PrefetchResult.match_containment_ani": pv[1],
+                     "PrefetchResult.average_containment_ani": pv[2], "PrefetchResult.max_containment_ani": pv[3]})
+    if not r["g"].startswith("E"):
+        gv = r["g"].split(",")
+        vals.update({"GatherResult.average_containment_ani": gv[2], "GatherResult.max_containment_ani": gv[3]})
+    for nm, v in vals.items():
+        if v.startswith("E"):
+            continue
+        if (v == "N") != (acc != "11"):
+            bad.append((idx, f"C17:class-law:withheld-iff-unreliable:{nm}", f"size_is_accurate = {acc} but {nm} = {show(v)} [{' '.join(w[:12])}]"))
+        elif v != "N":
+            if cm == 0 and v != ZERO:
+                bad.append((idx, f"C17:class-law:disjoint-not-zero:{nm}", f"{nm} = {show(v)} for disjoint sketches"))
+            if cm == la == lb and v != ONE:
+                bad.append((idx, f"C17:class-law:identical-not-one:{nm}", f"{nm} = {show(v)} for identical sketches"))
     return bad
 
 
